@@ -37,4 +37,22 @@ CHECKS["C09"] = {
   "text": "For aspirate_well, dispense_well, reagent_distribution, comment, wash, decontaminate, flush, commit, set_diti the real body is proved, per type-case, to append exactly one record equal to the Tecan rope of its arguments (11 fields for A/D, 15 + sorted exclusions for R) whose fields contain no separator / line break (so split(';') returns the arguments: generic split/join lemma), to raise for exactly the unrepresentable argument tuples, and to leave the record list unchanged on every raise exit. prepare_aspirate_dispense_parameters is verified separately (C10 contract) and used here by its contract.",
   "note": "Number formatting (str(int), '.2f', str(float), numpy.round) is axiomatised by uninterpreted functions with separator-freeness; text fields are assumed printable (no line breaks) as in the property's quantifier; exclusion lists are proved for lengths 0..3 (symbolic contents); multi-line comments for 1 and 2 lines; bool positions/indices are outside the universe. The split/join inverse lemma is Lean's List.splitOn_intercalate (checked by lean in the thorough tier).",
 }
+CHECKS["C17"] = {
+  "category": "proof",
+  "technique": "contract-based deductive verification relative to an axiomatised file object: postconditions on the sequence of file operations and their arguments, extracted from the real Python ast, z3",
+  "text": "save: for str and Path arguments, raises AssertionError iff the lower-cased file name does not END in .gwl, otherwise performs exactly unlink(missing_ok=True), open(path,'w',newline='\\r\\n',encoding latin_1), one write of '\\n'.join(records), close - so by the io axioms the file holds the records joined by CRLF, Latin-1, no trailing break, no residue. __exit__ saves iff a path is configured, for every exc_type, and never swallows the exception; __enter__ empties the list and returns self; __repr__/__str__ show the joined records.",
+  "note": "Proof is relative to the io axioms (text-mode newline translation, 'w' truncation, latin_1 total on code points <= 255), which the native replay/bounded part exercises on a temp directory; Path.name and str.lower are uninterpreted functions. That records contain no line break is C09's postcondition.",
+}
+CHECKS["C02"] = {
+  "category": "proof",
+  "technique": "contract-based deductive verification: loop invariants + exceptional postconditions on the real Labware.add/remove bodies over a symbolic well-formed labware; VCs from the Python ast, z3",
+  "text": "For every well-formed plate / trough, every history-independent pre-state and every argument shape (single well, lists of any length with repeats, 2-D arrays, scalar or per-well volumes) Labware.add / remove are proved to: leave every addressed well <= max_volume (>= min_volume), raise VolumeOverflowError / VolumeUnderflowError exactly when some step would cross the limit, with the offending step not applied (state == effect of the earlier steps only), raise AssertionError for negative / NaN volumes and KeyError for unknown wells; non-negativity follows from 0 <= min_volume. Worklist methods reach the volume array only through these two methods (frame obligations of the worklist contracts, C03).",
+  "note": "float = real (exact-limit and beyond-limit are covered semantically over the reals; one-ulp effects of IEEE rounding are outside the model and exercised by the bounded part only). The labware is assumed well-formed (constructor contract C20). +inf volumes are covered by the bounded part.",
+}
+CHECKS["C04"] = {
+  "category": "proof",
+  "technique": "contract-based deductive verification: postcondition vol' == vol +/- contrib(wells, volumes) with contrib defined by recursion over the (well, volume) pairs; loop invariant with the partial sum; z3",
+  "text": "Labware.add/remove: for every real well (r,c): vol'[r,c] == vol[r,c] +/- sum over the pairs i of volume_i*[well_i addresses (r,c)] - one statement giving the sum, the frame (untouched wells unchanged), repeats (one term per occurrence) and trough aliasing (every virtual row id maps to real row 0). Pairing is element-wise in column-major order, a single volume is broadcast. Proved for symbolic list lengths and 2-D shapes.",
+  "note": "float = real; numpy flatten('F') / repeat are library axioms; index map of the labware from wf(L) (C20). aspirate/dispense hand their normalised arrays to remove/add unchanged (worklist contracts).",
+}
 NOT_APPLICABLE = {}
